@@ -140,6 +140,10 @@ def asis_roots(op, arg, recipes):  # noqa: C901, PLR0911, PLR0912
             return [arg.get("anyf"), arg.get("objf"), *(lst if isinstance(lst, list) else [])]
         return [arg.anyf, arg.objf, *arg.lst]
     collect = "nm_extra_collect" in recipes
+    if t == "WithExtra5" and "nm_extra_paths" in recipes and load and isinstance(arg, dict):
+        # laid out with a nested level ("head": {"a": ...}); extra data is not collected on loading
+        lb, e = arg.get("labels"), arg.get("extra")
+        return [arg.get("meta"), *(lb.values() if isinstance(lb, dict) else []), *(e.values() if isinstance(e, dict) else [])]
     if t == "WithExtra4":
         # e1, e2 are typed Any: whatever ends up there is passed as is
         if load:
